@@ -585,6 +585,43 @@ func deviationCases(thorough bool) []caseRec {
 			devCase{"replace-type-and-default", "leaf x { %s default abc; }", "type string;", "deviate replace { type int8; default 5; }", "UNSPEC", "ok"},
 		)
 	}
+	// several deviate statements in one deviation, in every order: with not-supported among them the
+	// deviation is forbidden wherever it stands (RFC 6020 7.18.3.2); without it the edits are independent
+	{
+		stmts := map[string]string{"NS": "deviate not-supported;", "A": "deviate add { units u; }", "D": "deviate delete { default old; }", "R": "deviate replace { config false; }"}
+		var perms func(rest []string, cur []string)
+		perms = func(rest []string, cur []string) {
+			if len(cur) >= 2 {
+				var text, name []string
+				hasNS := false
+				edited := " config true;"
+				if contains(cur, "R") {
+					edited = " config false;"
+				}
+				if !contains(cur, "D") {
+					edited += " default old;"
+				}
+				if contains(cur, "A") {
+					edited += " units u;"
+				}
+				for _, k := range cur {
+					text = append(text, stmts[k])
+					name = append(name, k)
+					hasNS = hasNS || k == "NS"
+				}
+				dc := devCase{"sequence-" + strings.Join(name, "-"), leaf, " config true; default old;", strings.Join(text, " "), edited, "ok"}
+				if hasNS {
+					dc.edited, dc.expect = "", "error"
+				}
+				cs = append(cs, dc)
+			}
+			for i, k := range rest {
+				next := append(append([]string{}, rest[:i]...), rest[i+1:]...)
+				perms(next, append(append([]string{}, cur...), k))
+			}
+		}
+		perms([]string{"NS", "A", "D", "R"}, nil)
+	}
 	// every case again with an (enabled) if-feature on the target: deviations and features combine
 	n := len(cs)
 	for _, c := range cs[:n] {
@@ -661,4 +698,13 @@ func replay(c *engine.Ctx, sub string, raw json.RawMessage) []engine.Violation {
 	}
 	vs, _ := check(r)
 	return vs
+}
+
+func contains(l []string, x string) bool {
+	for _, y := range l {
+		if y == x {
+			return true
+		}
+	}
+	return false
 }
